@@ -107,11 +107,13 @@ class AllocatorAwarePointer
             {
                 if (get_allocator() != other.get_allocator())
                 {
+                    // allocate first because it might throw
+                    auto new_allocator = other.get_allocator();
+                    const auto new_ptr = AllocatorTraits::allocate(new_allocator, other.size());
                     deallocate();
-                    get() = nullptr;
                     propagate_on_container_copy_assignment(other);
+                    get() = new_ptr;
                     size() = other.size();
-                    get() = allocate();
                     return *this;
                 }
             }
